@@ -625,6 +625,9 @@ class Interp:
             return sym_add(l, r, 1 if isinstance(e.op, ast.Add) else -1)
         if isinstance(e, (ast.ListComp, ast.GeneratorExp)):
             return self.comp(e, env, depth)
+        if isinstance(e, ast.SetComp):
+            r_ = self.comp(e, env, depth)
+            return set(self._hashable(x) for x in r_) if isinstance(r_, list) and all(x is not UNKNOWN for x in r_) else UNKNOWN
         if isinstance(e, ast.Subscript) and isinstance(e.slice, ast.Slice):
             base = self.ev(e.value, env, depth)
             lo = self.ev(e.slice.lower, env, depth) if e.slice.lower is not None else None
@@ -791,6 +794,16 @@ class Interp:
                 return all(vals) if nm == "all" else any(vals)
             if nm == "len" and len(args) == 1 and isinstance(args[0], (list, set, dict)):
                 return len(args[0])
+            if nm == "defaultdict" and nm not in env and len(args) <= 1 and not kwargs:
+                d_ = DDict()
+                f_ = args[0] if args else None
+                if isinstance(f_, LocalFn):
+                    d_.factory = (lambda f_=f_, env=env, depth=depth: self.call_local(f_, [], {}, depth, env))
+                elif isinstance(f_, TypeV) and f_.kind == "builtin" and f_.name in ("list", "set", "dict", "int", "float"):
+                    d_.factory = {"list": list, "set": set, "dict": dict, "int": int, "float": float}[f_.name]
+                elif f_ is not None:
+                    return UNKNOWN
+                return d_
             if nm == "map" and len(args) == 2 and isinstance(args[1], (list, set)) and nm not in env:
                 return [self.apply(args[0], [x], env, depth) for x in (args[1] if isinstance(args[1], list) else sorted(args[1], key=repr))]
             if nm == "filter" and len(args) == 2 and isinstance(args[1], list) and nm not in env and args[0] is not None:
@@ -1010,7 +1023,7 @@ class Interp:
                         if k.startswith("self."):
                             env[k] = v
                     return rv
-        if isinstance(c.func, ast.Attribute) and nm in ("append", "pop", "popleft", "add", "remove", "extend", "update", "sort", "reverse") and args is not None:
+        if isinstance(c.func, ast.Attribute) and nm in ("append", "pop", "popleft", "add", "remove", "extend", "update", "sort", "reverse", "union", "intersection", "difference") and args is not None:
             base = self.ev(c.func.value, env, depth)
             if isinstance(base, list):
                 if nm == "append" and args:
@@ -1042,6 +1055,12 @@ class Interp:
             if isinstance(base, set) and nm == "add" and args:
                 base.add(self._hashable(args[0]))
                 return None
+            if isinstance(base, set) and nm in ("union", "intersection", "difference") and all(isinstance(a, (set, list, dict)) for a in args):
+                r_ = set(base)
+                for a in args:
+                    other = set(self._hashable(x) for x in (a.keys() if isinstance(a, dict) else a))
+                    r_ = r_ | other if nm == "union" else r_ & other if nm == "intersection" else r_ - other
+                return r_
             if isinstance(base, set) and nm == "update" and len(args) == 1 and isinstance(args[0], (set, list)):
                 base.update(self._hashable(x) for x in args[0])
                 return None
@@ -1116,6 +1135,8 @@ def _install():
             return v.tag
         if isinstance(v, list):
             return tuple(self._hashable(x) for x in v)
+        if isinstance(v, TypeV):
+            return v        # types are hashable values: a table keyed by types yields types when iterated
         return v if isinstance(v, (str, int, float, bool, tuple, type(None))) else repr(v)
 
     def _defaults(self, node, env, depth):
